@@ -173,6 +173,12 @@ pub fn decode_verdict_script(n: u32) -> Script {
     if n & (1 << 31) != 0 {
         s.keep = 0xff;
     }
+    if n & (1 << 30) != 0 {
+        // parking action: middleware 0 waits at gate 0 inside before_reduce
+        s.rgate = 0;
+        s.mgate_idx = 0;
+        s.mgate_hook = 0;
+    }
     let var = (n >> 24) & 63;
     // effect variants: bit0: reducer 0 returns a Task; bit1: reducer 1 returns a Function;
     // bits 2..3: which middleware removes position 0 (0 = none); bits 4..5: removes position 1
@@ -485,6 +491,8 @@ pub struct ScriptedSub {
     /// scenario-specific action performed inside on_notify (e.g. unsubscribe another subscriber,
     /// dispatch to another store)
     pub hook: Option<SubHook>,
+    /// the first on_unsubscribe call panics (after recording the call)
+    pub panic_on_unsub: std::sync::atomic::AtomicBool,
 }
 
 pub type SubHook = Arc<dyn Fn(&Arc<Ctx>, &St, &Act) + Send + Sync>;
@@ -514,6 +522,9 @@ impl Subscriber<St, Act> for ScriptedSub {
         self.ctx.ev(K::SUnsub, store, 0, self.id, 0, 0, 0);
         if let Some(c) = &self.unsub_counter {
             c.add(1);
+        }
+        if self.panic_on_unsub.swap(false, std::sync::atomic::Ordering::Relaxed) {
+            std::panic::panic_any(PANIC_MARK);
         }
     }
 }
